@@ -186,12 +186,26 @@ Example ex_filter :
 Proof. vm_compute. reflexivity. Qed.
 
 (** Two views with distinct names: two streams; a third with the name of the first in other casing is merged. *)
-Definition ex_inst : inst := {| i_name := str "req"; i_desc := []; i_unit := []; i_kind := KCounter; i_float := false |}.
+Definition ex_inst : inst :=
+  {| i_name := str "req"; i_desc := []; i_unit := []; i_kind := KCounter; i_float := false;
+     i_sname := str "lib"; i_sver := []; i_surl := [] |}.
 Definition ex_view (mn : bytes) (a : aggsel) : view :=
-  {| vc_name := str "req"; vc_kind := None; vc_unit := []; vm_name := mn; vm_desc := []; vm_unit := [];
+  {| vc_name := str "req"; vc_desc := []; vc_kind := None; vc_unit := [];
+     vc_sname := []; vc_sver := []; vc_surl := []; vm_name := mn; vm_desc := []; vm_unit := [];
      vm_agg := a; vm_filter := None |}.
 Example ex_views :
   snd (insert [ex_view (str "x") ASNil; ex_view (str "y") ASHist; ex_view (str "X") ASSum] ex_inst p_empty) = [0; 1]%nat
   /\ snd (insert [ex_view (str "x") ASDrop] ex_inst p_empty) = []
-  /\ map ad_name (ps_decls (fst (insert [ex_view (str "x") ASDrop; ex_view (str "kept") ASNil] ex_inst p_empty))) = [str "kept"].
+  /\ map ad_name (ps_decls (fst (insert [ex_view (str "x") ASDrop; ex_view (str "kept") ASNil] ex_inst p_empty)))
+     = [qualified ex_inst (str "kept")].
 Proof. vm_compute. repeat split. Qed.
+
+(** ** Concurrent recording
+    The aggregators serialise measurements under a lock, so a concurrent run is some history;
+    these clauses hold for EVERY history, i.e. whatever order the scheduler produced: no set twice,
+    at most L sets, every reported set was measured (after filtering) or is the overflow set,
+    totals and histogram counts conserved. *)
+Theorem c12_order_free : forall c h, is_presum_delta c = false ->
+  Forall2 (fun pts w => order_free c w pts) (s_run c h s_empty) (windows c h).
+Proof. exact stream_order_free. Qed.
+Print Assumptions c12_order_free.
